@@ -98,6 +98,12 @@ def c10(pid, tier, replay):
     kmap = {"original": "original", "original_noaction": "original", "original_useraction": "original", "grmtools": "grmtools", "eco": "eco"}
     step = 1 if tier == "quick" or replay else 4
     titems = [dict(id=i["id"], entry="yast_" + kmap.get(i["kind"], "original"), s=i["y"]) for i in insts[::step]]
+    # %parse-param / %parse-generics (not written by the document generator) must reach the grammar object
+    for i, t in enumerate(list(titems[:12])):
+        k = t["s"].find("\n%%")
+        if k >= 0 and "%parse-" not in t["s"]:
+            ins = ["%parse-param ctx: &'a mut Vec<u64>", "%parse-generics 'a, K, V: Clone"][i % 2:][: 1 + (i % 3 == 0)]
+            titems.append(dict(t, id=t["id"] + "+pp", s=t["s"][:k] + "\n" + "\n".join(ins) + t["s"][k:]))
     tjob = os.path.join(res.wd, "tjob.json")
     ttrace = os.path.join(res.wd, "ttrace.ndjson")
     with open(tjob, "w") as f:
